@@ -53,12 +53,16 @@ func verifArchPayload(o scen.Options) {
 		case 'f':
 			v.Assert(e.Name == name && e.Type == '0', "arch-file-name-type")
 			v.Assert(bytes.Equal(e.Data, w.Data), "arch-file-bytes")
-			v.Assert(e.Mode == int64(w.Mode), "arch-file-mode")
+			if scen.DiskSpecial(w.Mode) {
+				v.Assert(e.Mode == scen.UnixMode(w.Mode), "arch-file-mode-special-bits-from-disk")
+			} else {
+				v.Assert(e.Mode == scen.UnixMode(w.Mode), "arch-file-mode")
+			}
 			v.Assert(e.MTime == w.MTime.Unix(), "arch-file-mtime")
 			v.Assert(e.Uname == w.Owner && e.Gname == w.Group, "arch-file-owner-group")
 		case 'd', 'i':
 			v.Assert(e.Name == name+"/" && e.Type == '5', "arch-dir-name-type")
-			v.Assert(e.Mode == int64(w.Mode), "arch-dir-mode")
+			v.Assert(e.Mode == scen.UnixMode(w.Mode), "arch-dir-mode")
 			v.Assert(e.Uname == w.Owner && e.Gname == w.Group, "arch-dir-owner-group")
 		case 'l':
 			v.Assert(e.Name == name && e.Type == '2', "arch-symlink-name-type")
